@@ -162,6 +162,17 @@ func (r *mqRun[T]) apply(op Op) string {
 		if !r.b.eq(got, r.ref[:j]) {
 			return r.errf("Each (stopped at %d) lists %s, reference %s", j, r.b.list(got), r.b.wants(r.ref))
 		}
+		// a second Each from inside the callback of the first, at element j
+		var outer, inner []T
+		r.q.Each(func(v T) bool {
+			if outer = append(outer, v); len(outer) == j {
+				r.q.Each(func(w T) bool { inner = append(inner, w); return true })
+			}
+			return true
+		})
+		if !r.b.eq(outer, r.ref) || !r.b.eq(inner, r.ref) {
+			return r.errf("Each with a second Each run inside its callback (at element %d) lists %s and %s, reference %s", j, r.b.list(outer), r.b.list(inner), r.b.wants(r.ref))
+		}
 		return ""
 	case "clear":
 		if len(r.ref) > 0 {
@@ -231,6 +242,7 @@ func runMQueueOf[T any](c SeqCase, o *vk.Obs, b *bound[T]) string {
 		return msg
 	}
 	for i, op := range c.Ops {
+		o.Step() // interleaved execution (vk.Interleave) switches to the other case here
 		r.step = i
 		if msg := guarded(ctx, func() string { return r.apply(op) }); msg != "" {
 			return msg
